@@ -36,6 +36,7 @@ MODULES = ["Klong.Props.C20"]
 THEOREMS = [
     "Klong.C20.run_refines_spec",
     "Klong.C20.route_exactly_once",
+    "Klong.C20.params_exactly_by_method",
     "Klong.C20.failure_contained",
     "Klong.C20.unknown_path_no_handler",
     "Klong.C20.unknown_key_no_handler",
@@ -270,6 +271,17 @@ def gen_params(rng):
     return {k: rng.choice(VALS) for k in ks}
 
 
+def gen_other(rng):
+    """the part of a request that travels where the handler must not look: a body on a GET, a query
+    string on a POST (keys from the same pool: overlapping and disjoint with the real parameters)"""
+    if rng.random() < 0.5:
+        return []
+    o = gen_params(rng)
+    while not o:
+        o = gen_params(rng)
+    return [o]
+
+
 def gen_web_scenario(rng, real, length, burst_p=0.12):
     """a route table of <=3 GET and <=3 POST routes over five global handler symbols, inline lambdas,
     a Python callable and a number, and an operation sequence"""
@@ -326,7 +338,7 @@ def gen_web_scenario(rng, real, length, burst_p=0.12):
                 ps = gen_params(rng)
                 ps["rid"] = f"r{i}-{j}"
                 ps["k"] = f"{rng.choice(VALS)}#{i}-{j}"
-                reqs.append([m, p, ps])
+                reqs.append([m, p, ps] + gen_other(rng))
             ops.append(["par", reqs])
             continue
         if r < 0.72 or closed and r < 0.9:
@@ -340,7 +352,7 @@ def gen_web_scenario(rng, real, length, burst_p=0.12):
                 m = "post" if m == "get" else "get"
             else:
                 m, p = rng.choice(["get", "post"]), rng.choice(UNKNOWN)
-            ops.append(["req", m, p, gen_params(rng)])
+            ops.append(["req", m, p, gen_params(rng)] + gen_other(rng))
         elif r < 0.97:
             s = rng.choice(SYMS)
             q = rng.random()
@@ -356,7 +368,7 @@ def gen_web_scenario(rng, real, length, burst_p=0.12):
             closed = True
     # every scenario ends by stopping the server, asking once more, and stopping again
     m, p = rng.choice(sorted(allp)) if allp else ("get", "/a")
-    ops += [["webc"], ["req", m, p, gen_params(rng)], ["webc"]]
+    ops += [["webc"], ["req", m, p, gen_params(rng)] + gen_other(rng), ["webc"]]
     return dict(kind="web", env=env, get=gets, post=posts, ops=ops)
 
 
@@ -420,10 +432,28 @@ def route_json(ref, defs):
     return ref[0]
 
 
-async def _http(session, method, url, params):
+def req_parts(r):
+    """a request is [method, path, params] or [method, path, params, other]: `params` is the part the
+    handler must see (query of a GET, form of a POST); `other` travels in the other place (a body on a
+    GET, a query string on the URL of a POST) and must NOT reach the handler"""
+    m, p, params = r[0], r[1], r[2]
+    return m, p, params, (r[3] if len(r) > 3 else {})
+
+
+def wire_parts(m, params, other):
+    """(query, form) as they travel"""
+    return (params, other) if m == "get" else (other, params)
+
+
+async def _http(session, method, url, params, other=None):
     import aiohttp
     try:
-        kw = dict(params=params) if method == "get" else dict(data=params)
+        query, form = wire_parts(method, params, other or {})
+        kw = {}
+        if query:
+            kw["params"] = query
+        if form or method == "post":
+            kw["data"] = form
         async with session.request(method.upper(), url, **kw) as r:
             return str(r.status), await r.text()
     except (aiohttp.ClientConnectionError, asyncio.TimeoutError):
@@ -431,7 +461,8 @@ async def _http(session, method, url, params):
 
 
 async def _http_many(session, port, reqs):
-    return await asyncio.gather(*[_http(session, m, f"http://127.0.0.1:{port}{p}", params) for m, p, params in reqs])
+    return await asyncio.gather(*[_http(session, m, f"http://127.0.0.1:{port}{p}", params, other)
+                                  for m, p, params, other in map(req_parts, reqs)])
 
 
 def run_web_scenario(ctx, real, hl, drv, sc):
@@ -468,7 +499,7 @@ def run_web_scenario(ctx, real, hl, drv, sc):
             pass
         wh = None
     if wh is None:
-        raise Infra("could not start a web server on a loopback port")
+        raise Unreachable("could not start a web server on a loopback port")
     oracle = WebOracle(sc)
     case = dict(kind="web", env=sc["env"], get=sc["get"], post=sc["post"], ops=[])
     try:
@@ -498,9 +529,9 @@ def run_web_scenario(ctx, real, hl, drv, sc):
             for op in sc["ops"]:
                 case["ops"].append(op)
                 if op[0] == "req":
-                    _, m, p, params = op
+                    m, p, params, other = req_parts(op[1:])
                     n0 = len(real.weblog)
-                    status, body = hl.call(_http(session, m, f"http://127.0.0.1:{port}{p}", params))
+                    status, body = hl.call(_http(session, m, f"http://127.0.0.1:{port}{p}", params, other))
                     log = [[i, d] for i, d in real.weblog[n0:]]
                     exp = oracle.request(m, p, params)
                     # ---- property oracle
@@ -510,7 +541,9 @@ def run_web_scenario(ctx, real, hl, drv, sc):
                                   "web:after-webc:handler-ran" if exp[0] == "none" else "web:route:log"
                         else:
                             key = "web:route:not-exactly-once" if len(log) != 1 else \
-                                  "web:route:wrong-handler" if log[0][0] != exp[2][0][0] else "web:route:params"
+                                  "web:route:wrong-handler" if log[0][0] != exp[2][0][0] else \
+                                  "web:route:params-from-the-other-part" if other and isinstance(log[0][1], dict) and \
+                                  all(log[0][1].get(a) == b for a, b in params.items()) else "web:route:params"
                         ctx.oracle_fail(key, case, exp[2], log,
                                         "Klong-side call log of this request: one entry per request to a registered "
                                         "route, by that route's handler, with exactly the parameters")
@@ -530,8 +563,13 @@ def run_web_scenario(ctx, real, hl, drv, sc):
                     impl = f"ok status={status} body={hx(body) if status in ('200', '400') else ''} log={jhx(log)}"
                     ctx.bump("web:req:" + exp[0])
                     ctx.bump("web:params:" + param_class(params))
+                    if other:
+                        ctx.bump(f"web:{m}:with-" + ("body" if m == "get" else "query-string")
+                                 + (":overlapping-keys" if set(other) & set(params) else ":disjoint-keys")
+                                 + (":empty-" + ("query" if m == "get" else "form") if not params else ""))
                     if drv:
-                        model = drv.ask(f"req m={m} path={hx(p)} params={jhx(params)}")
+                        q, f = wire_parts(m, params, other)
+                        model = drv.ask(f"req m={m} path={hx(p)} query={jhx(q)} form={jhx(f)}")
                         if not same_reply(model, impl):
                             ctx.mismatch("Klong.C20.request vs _get/_post", case, show_reply(model), show_reply(impl))
                             return
@@ -545,10 +583,11 @@ def run_web_scenario(ctx, real, hl, drv, sc):
                     finally:
                         real.slow_on = False
                     log = [[i, d] for i, d in real.weblog[n0:]]
-                    exps = [oracle.request(m, p, params) for m, p, params in reqs]
+                    exps = [oracle.request(m, p, params) for m, p, params, _ in map(req_parts, reqs)]
                     want = [e for exp in exps for e in exp[2]]
-                    for (m, p, params), (status, body), exp in zip(reqs, answers, exps):
-                        one = dict(case, ops=case["ops"][:-1] + [["par", reqs]], request=[m, p, params])
+                    for r_, (status, body), exp in zip(reqs, answers, exps):
+                        m, p, params, other = req_parts(r_)
+                        one = dict(case, ops=case["ops"][:-1] + [["par", reqs]], request=r_)
                         for e in exp[2]:
                             if log.count(e) != 1:
                                 ctx.oracle_fail("web:concurrent:params", one, e, log,
@@ -564,11 +603,13 @@ def run_web_scenario(ctx, real, hl, drv, sc):
                         ctx.oracle_fail("web:concurrent:not-exactly-once", case, want, log,
                                         "overlapping requests: one handler invocation per request to a registered route")
                     ctx.bump(f"web:burst:{len(reqs)}")
-                    ctx.bump("web:burst:same-route" if len({(m, p) for m, p, _ in reqs}) < len(reqs) else "web:burst:different-routes")
+                    ctx.bump("web:burst:same-route" if len({(r_[0], r_[1]) for r_ in reqs}) < len(reqs) else "web:burst:different-routes")
                     if drv:
                         mlog = []
-                        for (m, p, params), (status, body) in zip(reqs, answers):
-                            model = _reply_obj(drv.ask(f"req m={m} path={hx(p)} params={jhx(params)}"))
+                        for r_, (status, body) in zip(reqs, answers):
+                            m, p, params, other = req_parts(r_)
+                            q, f = wire_parts(m, params, other)
+                            model = _reply_obj(drv.ask(f"req m={m} path={hx(p)} query={jhx(q)} form={jhx(f)}"))
                             mlog += model["log"] or []
                             if (model["status"], model["body"]) != (status, body if status in ("200", "400") else ""):
                                 ctx.mismatch("Klong.C20.request vs _get/_post (overlapping requests)", case,
@@ -889,7 +930,7 @@ def run_ws_recv(ctx, real, hl, drv, sc):
         k(".ws.m::" + hsrc(sc["handler"]))
         nc = k(f'wsc::.ws("ws://127.0.0.1:{srv.port}")')
         if not srv.connected.wait(WAIT):
-            raise Infra("websocket client did not connect")
+            raise Unreachable("websocket client did not connect")
         cur = sc["handler"]
         model_evs = []
         expected = []           # the property: one entry per frame, in order, current handler, decoded value
@@ -1087,7 +1128,7 @@ def run_ws_send(ctx, real, hl, drv, items):
         k(".ws.m::{wsrec(0;x;y)}")
         nc = k(f'wsc::.ws("ws://127.0.0.1:{srv.port}")')
         if not srv.connected.wait(WAIT):
-            raise Infra("websocket client did not connect")
+            raise Unreachable("websocket client did not connect")
         for n, (expr, want) in enumerate(items):
             case = dict(kind="ws-send", expr=expr, expect=want)
             try:
@@ -1172,7 +1213,7 @@ def _start_web(real, expr_get, expr_post):
             asyncio.run_coroutine_threadsafe(wh.shutdown(), real.ioloop).result(WAIT)
         except Exception:
             pass
-    raise Infra("could not start a web server on a loopback port")
+    raise Unreachable("could not start a web server on a loopback port")
 
 
 def run_ws_send_history(ctx, real, hl, drv, sc):
@@ -1195,7 +1236,7 @@ def run_ws_send_history(ctx, real, hl, drv, sc):
         k(".ws.m::{wsrec(0;x;y)}")
         nc = k(f'wsc::.ws("ws://127.0.0.1:{srv.port}")')
         if not srv.connected.wait(WAIT):
-            raise Infra("websocket client did not connect")
+            raise Unreachable("websocket client did not connect")
         k("sd:::{}")
         k("so:::{}")
         k('so,"inner",,sd')
@@ -1222,7 +1263,7 @@ def run_ws_send_history(ctx, real, hl, drv, sc):
             real.ioloop.call_soon_threadsafe(busy)
             try:
                 if not entered.wait(WAIT):
-                    raise Infra("io loop did not pick up the gate")
+                    raise Unreachable("io loop did not pick up the gate")
                 for t in stmts:
                     k(t)
             finally:
@@ -1357,12 +1398,39 @@ def _quiet():
     return contextlib.redirect_stdout(io.StringIO())
 
 
+class Unreachable(Exception):
+    """the real server / client did not come up on loopback within WAIT seconds"""
+
+
+def guarded(ctx, kind, case, fn, *args):
+    """run one scenario; whatever escapes from klongpy (or from decoding what it produced) is a failure of
+    the property on that scenario, reported with the scenario as replay — never a crash of the check"""
+    for attempt in (0, 1):
+        try:
+            return fn(*args)
+        except Infra:
+            raise
+        except Unreachable as e:
+            if attempt == 0:
+                continue
+            ctx.oracle_fail(f"{kind}:unreachable", case, "the server / client comes up on loopback", str(e),
+                            "twice in a row the real code did not get a loopback connection going")
+        except Exception as e:
+            import traceback
+            ctx.oracle_fail(f"{kind}:raises:{type(e).__name__}", case, "the scenario runs to its end",
+                            f"{type(e).__name__}: {e}",
+                            "an exception escaped while the scenario ran on the real code: "
+                            + traceback.format_exc()[-600:])
+            return None
+
+
 def run(ctx):
     quick = ctx.tier == "quick"
     ctx.rule = ("seeded scenarios: route tables of <=3 GET and <=3 POST routes over global handler symbols, inline "
                 "lambdas, a Python callable and a non-function x operation sequences of requests (registered / "
                 "unknown / wrong-method / skipped routes; parameter dictionaries empty, several keys, non-ASCII, "
-                "URL-encoding), handler redefinitions (new body, other arity, non-function) and .webc; websocket "
+                "URL-encoding; independent query and form parts: a body on a GET, a query string on a POST, "
+                "overlapping and disjoint keys, empty form), handler redefinitions (new body, other arity, non-function) and .webc; websocket "
                 "frame sequences over all JSON kinds with .ws.m redefinition; send histories (amend a dictionary in place, "
                 "send, amend, send ... with the io loop gated, or from a .web handler on the io loop); ws(x) over Python/numpy scalar, "
                 "string, typed/object array and dictionary values; JSON texts (valid and damaged) through the "
@@ -1393,13 +1461,13 @@ def run(ctx):
             for cp in sorted(cdir.glob("*.json")) if cdir.exists() else []:
                 c = json.loads(cp.read_text())
                 if c["kind"] == "web":
-                    run_web_scenario(ctx, real, hl, drv, c)
+                    guarded(ctx, "web", c, run_web_scenario, ctx, real, hl, drv, c)
                 elif c["kind"] == "ws-recv":
-                    run_ws_recv(ctx, real, hl, drv, c)
+                    guarded(ctx, "ws:recv", c, run_ws_recv, ctx, real, hl, drv, c)
                 elif c["kind"] == "ws-send":
-                    run_ws_send(ctx, real, hl, drv, [tuple(x) for x in c["items"]])
+                    guarded(ctx, "ws:send", c, run_ws_send, ctx, real, hl, drv, [tuple(x) for x in c["items"]])
                 elif c["kind"] == "ws-send-history":
-                    run_ws_send_history(ctx, real, hl, drv, c)
+                    guarded(ctx, "ws:send-history", c, run_ws_send_history, ctx, real, hl, drv, c)
                 ctx.bump("corpus")
             nweb = 40 if quick else 500
             for i in range(nweb):
@@ -1407,7 +1475,7 @@ def run(ctx):
                                       burst_p=0.12 if quick else 0.06)
                 if i < 2:
                     ctx.sample(dict(kind="web", get=sc["get"], post=sc["post"], ops=sc["ops"][:6]))
-                run_web_scenario(ctx, real, hl, drv, sc)
+                guarded(ctx, "web", sc, run_web_scenario, ctx, real, hl, drv, sc)
                 if len(ctx.oracle_failures) + len(ctx.mismatches) >= 6:
                     break
             nws = 16 if quick else 150
@@ -1415,14 +1483,14 @@ def run(ctx):
                 sc = gen_ws_scenario(ctx.rng, real, ctx.rng.randrange(3, 10 if quick else 25))
                 if i < 2:
                     ctx.sample(dict(kind="ws-recv", evs=sc["evs"][:5]))
-                run_ws_recv(ctx, real, hl, drv, sc)
+                guarded(ctx, "ws:recv", sc, run_ws_recv, ctx, real, hl, drv, sc)
                 if len(ctx.oracle_failures) + len(ctx.mismatches) >= 8:
                     break
             # the known-finding witness is replayed on every run
             for e in ctx.findings:
                 w = e.get("witness", {})
                 if w.get("kind") == "ws-recv":
-                    run_ws_recv(ctx, real, hl, drv, dict(kind="ws-recv", handler=real.fresh(), evs=w["evs"]))
+                    guarded(ctx, "ws:recv", w, run_ws_recv, ctx, real, hl, drv, dict(kind="ws-recv", handler=real.fresh(), evs=w["evs"]))
             items = list(SEND_POOL)
             for _ in range(20 if quick else 300):
                 it = gen_send_expr(ctx.rng)
@@ -1430,12 +1498,12 @@ def run(ctx):
                     items.append(it)
             ctx.sample(dict(kind="ws-send", exprs=[e for e, _ in items[:8]]))
             for i in range(0, len(items), 40):
-                run_ws_send(ctx, real, hl, drv, items[i:i + 40])
+                guarded(ctx, "ws:send", dict(kind="ws-send-batch", exprs=[e for e, _ in items[i:i + 40]]), run_ws_send, ctx, real, hl, drv, items[i:i + 40])
             for i in range(9 if quick else 90):
                 sc = gen_send_history(ctx.rng, "web" if i % 3 == 2 else "gated")
                 if i < 1:
                     ctx.sample(sc)
-                run_ws_send_history(ctx, real, hl, drv, sc)
+                guarded(ctx, "ws:send-history", sc, run_ws_send_history, ctx, real, hl, drv, sc)
                 if len(ctx.oracle_failures) + len(ctx.mismatches) >= 8:
                     break
             run_codec(ctx, drv, 300 if quick else 6000)
